@@ -827,6 +827,20 @@ def missing_attr(interp, obj, name, node):
 def foreign_method(interp, obj, owner, name, node):
     """method inherited from a builtin / stdlib base class"""
     key = f"foreign:{owner}.{name}"
+    if owner == "list" and isinstance(obj, VObj):
+        # list subclass: the list part of the object lives in the field __list__
+        if name == "__init__":
+            def init(it, a, k, n):
+                src = it.need(a[1]) if len(a) > 1 else VList([])
+                if isinstance(src, VObj) and "__list__" in src.fields:
+                    src = src.fields["__list__"]
+                a[0].fields["__list__"] = _list(it, [src], {}, n)
+                return NONE
+            return B("list.__init__", init, obj)
+        if name in ("__getitem__",) and "__list__" in obj.fields:
+            return B("list.__getitem__", lambda it, a, k, n: getitem(it, a[0].fields["__list__"], a[1], n), obj)
+        if name in LIST_METHODS and "__list__" in obj.fields:
+            return B("list." + name, lambda it, a, k, n: LIST_METHODS[name](it, [a[0].fields["__list__"]] + a[1:], k, n), obj)
     h = interp.reg.overrides.get(key)
     if h is not None:
         return B(key, h, obj)
@@ -1149,6 +1163,9 @@ def _len(it, a, k, n):
         return VInt(len(v.items))
     if isinstance(v, VSet) and v.items is not None:
         return VInt(len(v.items))
+    if isinstance(v, VObj) and "__list__" in v.fields and not (
+            isinstance(v.cls, ClassInfo) and isinstance(v.cls.find_method("__len__")[1], list)):
+        return VInt(ops.list_len(v.fields["__list__"]))
     if isinstance(v, VObj):
         return _dunder(it, v, "__len__", [], n)
     if isinstance(v, VNone):
